@@ -16,6 +16,13 @@
 //	fixed           object.ReadMetaObject, object.ReadObjectReference,
 //	                directory.ReadServiceInfo, bus.ReadCapabilityMap over
 //	                boundary values of their types and the real meta-objects
+//	long-string     encodings whose last item is a string (or raw buffer) of
+//	                65535, 65536, 65537, 70000 bytes (thorough: also 4095,
+//	                4096, 4097, 131073, 2^20+1) at every entry point that can
+//	                end in one (basic.ReadString, sigreader, reflect-decode,
+//	                newvalue, ReadMetaObject, ReadServiceInfo,
+//	                ReadCapabilityMap); cut positions and the additional
+//	                clause on the full encoding: see longstr.go
 //
 // Every prefix reaches the decoder under test through the fragmenting reader
 // of internal/enum (end-of-stream modes data+EOF and EOF separate) AND as a
@@ -705,14 +712,26 @@ func main() {
 			"messages (8 types x payload 0,1,5,40); dynamic values (13 constructors x Val, value lists of depth <= 2, opaque composites of Sig(2,2) without o plus 5 fixed signatures containing o: " +
 			"quick = all of Val for depth-1 signatures, distinguished+zero value for depth 2; thorough = all of Val); typed data of Sig(D,2) (D=2 quick, 3 thorough) through the signature reader and through the reflection decoder " +
 			"(quick: all of Val for depth 1, distinguished+zero value for depth 2; thorough: all of Val up to depth 2, the distinguished value for depth 3); " +
-			"MetaObject / ObjectReference / ServiceInfo / CapabilityMap boundary values and real meta-objects through their generated readers; argument tuples of every method of three generated stubs through Receive. " +
+			"MetaObject / ObjectReference / ServiceInfo / CapabilityMap boundary values and real meta-objects through their generated readers; argument tuples of every method of three generated stubs through Receive; " +
+			"long-string family: encodings whose LAST item is a long string or raw buffer (content lengths 65535, 65536, 65537, 70000; thorough also 4095, 4096, 4097, 131073, 1048577; content byte i = 0x21 + (i + 7*(i>>8) + 13*(i>>12) + 29*(i>>16)) % 94) at 13 entry points " +
+			"(basic.ReadString; sigreader and reflect-decode of s, (is), [s]; newvalue of m<s>, m<r>, m<(is)>; ReadMetaObject description; ReadServiceInfo objectUid; ReadCapabilityMap {k: m<s>}), " +
+			"cut at every position (thorough: every encoding up to 70000 content bytes; quick: the ReadString and m<s> encodings) or at the stated set {every k < c+16, every k >= len-16, c + stride*j + {-1,0,+1} for every j} with c = offset of the first content byte " +
+			"(quick: the other 11 entry points, stride 256; both tiers: content above 70000 bytes, stride 4096), each prefix under the three deliveries; the exact numbers are in the note 'long-string corpus'. " +
+			"For this family the full encoding is judged too: it must be accepted, consumed exactly and decode to the original under 5 deliveries (fingerprints full/...). " +
 			"evaluations counts decoder runs. A case class is (decoder, signature shape or decoder field path, element kind and part containing the first missing byte, outcome); " +
 			"distinct_nontrivial counts the distinct classes executed"
-		extra := map[string]interface{}{"depth": depth, "deliveries": []string{"FragReader/data+EOF", "FragReader/EOF-separate", "*bytes.Buffer"}}
+		lens := longQuick
+		if run.Thorough() {
+			lens = longThorough
+		}
+		extra := map[string]interface{}{"depth": depth, "deliveries": []string{"FragReader/data+EOF", "FragReader/EOF-separate", "*bytes.Buffer"},
+			"long_string": map[string]interface{}{"content_lengths": lens, "every_cut_up_to": longEvery, "entry_points": len(longEntries())}}
 		assumptions := []string{
 			"encodings are produced by the reference model written from doc/about-qimessaging.md",
 			"a decoder may behave differently according to the dynamic type of its io.Reader; two reader types are used: the check's own fragmenting reader and *bytes.Buffer (what bus/object.go, bus/signal.go, bus/client.go, bus/proxy.go and the generated stubs pass); other reader types (*bytes.Reader, bufio.Reader, net.Conn) are not enumerated",
 			"no strict prefix of a valid encoding is itself a complete encoding (every decoder consumes exactly what it needs), so no cut position is excluded",
+			"strings longer than 255 bytes occur only in the long-string family and only as the last item decoded; their lengths are chosen around 2^12, 2^16, 2^17 and 2^20 (plausible internal thresholds), other lengths between 256 and 10 MiB (MaxStringSize) are not enumerated; in the quick tier 11 of the 13 long-string entry points are cut at a stated set of positions (around every multiple of 256 content bytes, the first and the last 16), not at every position",
+			"Object.registerEventWithSignature(IILs) is the only stub method ending in a string; it answers every call with an error, so a truncated string accepted there could not be told from one refused: the long-string family does not drive stubs",
 			"generated argument decoders are reached through Receive of the bus/logger stubs and the generic Object actions; the ServiceDirectory stub needs an implementor with an unexported method and is not driven",
 			"a panic on a truncated input is filed as a violation with the clause 'panic' (it is not an error report)",
 			"a decode that does not return within the hang limit (5 executions) is reported as a violation with the clause 'hang' and ends the enumeration",
@@ -720,6 +739,9 @@ func main() {
 		return run.Finish(rule, true, extra, assumptions)
 	}
 	run.SetAbortFinish(15*time.Second, finish)
+	// the long-string family first: a fixed amount of work, never cut short
+	// by the deadline
+	familyLongStrings(run.Thorough())
 	familyMessages()
 	familyStubs()
 	familyFixed()
